@@ -40,6 +40,8 @@ def cases(tier, seed):
         yield {'kind': 'mutant', 'seed': seed, 'idx': i}
     for i in range({'quick': 60, 'thorough': 600}[tier]):
         yield {'kind': 'identity', 'seed': seed, 'idx': i}
+    if tier == 'thorough':
+        yield {'kind': 'suite'}      # every form the repository's own tests finalize, monitored on a deep copy
 
 def _classify(fun):
     name = getattr(fun, '__name__', '')
@@ -173,7 +175,39 @@ def check_form(rec, case, vf, desc, rng, sig0):
         rec.violation(dict(sig0, oracle='finalized program computes the value of the original integrand'), case, {'rel_dev': w}); return False
     return npairs[0] > 0
 
+_state = {}
+
+def suite_setup(rec):
+    """Monitor for the repository's own test suite: every VForm about to be finalized is deep-copied and the copy goes
+    through check_form (all rewrite pairs, emitted order, value of the finalized program) before the real finalize runs."""
+    import copy
+    from pyiga import vform as V
+    from verif.gen import rng_for
+    orig = V.VForm.finalize
+    busy = [False]; n = [0]
+    def finalize(self, *a, **kw):
+        if not busy[0]:
+            busy[0] = True
+            try:
+                rec.count('hook:finalize')
+                try:
+                    cp = copy.deepcopy(self)
+                except Exception as ex:
+                    cp = None; rec.count('suite_form_not_copyable:' + type(ex).__name__)
+                if cp is not None:
+                    n[0] += 1
+                    case = dict(_state.get('case') or {'kind': 'suite'}, form_index=n[0])
+                    check_form(rec, case, cp, None, rng_for('C06suite', 0, n[0]), {'kind': 'suite'})
+                    rec.count('suite_forms_monitored')
+            finally:
+                busy[0] = False
+        return orig(self, *a, **kw)
+    V.VForm.finalize = finalize
+
 def run_case(rec, case):
+    if case['kind'] == 'suite':
+        from verif.suite import run_suite
+        rec.case(case, nontrivial=True); run_suite(rec, 'c06', case); return
     from forms import gen, build
     from verif.gen import rng_for
     from pyiga import vform as V
